@@ -97,11 +97,13 @@ impl<A: Actor> Addr<A> {
     }
 
     pub fn running(&self) -> bool {
-        self.running.peek().is_none()
+        !self.stopped()
     }
 
     pub fn stopped(&self) -> bool {
-        self.running.peek().is_some()
+        // `peek` only sees a result that some clone has already polled out,
+        // so poll a clone to find out whether the actor has terminated
+        self.running.clone().now_or_never().is_some()
     }
 
     pub async fn call<M: Message>(&self, msg: M) -> Result<M::Response>
